@@ -8,7 +8,11 @@ pub(crate) fn remove_insignificant_whitespace(xot: &mut Xot, node: Node) {
         }
     }
     for node in to_remove {
-        xot.remove(node).unwrap();
+        // Remove just this node: its text siblings inside the subtree are
+        // whitespace too and go the same way, and text nodes outside the
+        // subtree (the neighbours of a text node this was called on) must
+        // not be merged as a side effect.
+        node.get().remove_subtree(xot.arena_mut());
     }
 }
 
